@@ -90,7 +90,9 @@ Step ==
        /\ UNCHANGED <<mode, held, pos, len, ac, ok, s, insync, acl, drift>>
        /\ fails' = IF /\ e.injected => (e.reported # "" \/ e.complete)
                       /\ ~e.injected => (e.reported = "" /\ e.complete)
-                     THEN (IF e.dirleft THEN Append(fails, <<l, "the temporary directory still exists after CleanUp">>) ELSE fails)
+                     THEN (IF e.dirleft THEN Append(fails, <<l, "the temporary directory still exists after CleanUp">>)
+                           ELSE IF e.nofile THEN Append(fails, <<l, "a writer was encoding or syncing a run that is not registered with the sorter (it could never be cleared away)">>)
+                           ELSE fails)
                      ELSE Append(fails, <<l, "I/O failure hidden: no call reported it and values are missing">>)
      ELSE IF ~ok THEN UNCHANGED <<mode, held, pos, len, ac, ok, s, insync, acl, fails, drift>>
      ELSE
